@@ -19,11 +19,11 @@ package cmd
 //@   invariant bounds: 0 <= iter && iter <= len(tl) && len(tl) == len(ul)
 //@   invariant same: forall i :: 0 <= i && i < iter ==> sameShape(tl[i], ul[i])
 
-//@ spec tsFrom(ts *TimeSeries) int = ite(ts == nil, 0, ts.fromTime)
-//@ spec tsUntil(ts *TimeSeries) int = ite(ts == nil, 0, ts.untilTime)
-//@ spec tsStep(ts *TimeSeries) int = ite(ts == nil, 0, ts.step)
 //@ spec sameShape(a *TimeSeries, b *TimeSeries) bool = tsFrom(a) == tsFrom(b) && tsUntil(a) == tsUntil(b) && tsStep(a) == tsStep(b)
 
+//@ spec shaped(ts *TimeSeries) bool = ts == nil || (ts.step == 0 && ts.fromTime == 0 && ts.untilTime == 0 && len(ts.values) == 0)
+//@        || (ts.step > 0 && ts.fromTime <= ts.untilTime && len(ts.values) == (ts.untilTime - ts.fromTime) / ts.step)
+//@ spec allShaped(tl TimeSeriesList) bool = forall i :: 0 <= i && i < len(tl) ==> shaped(tl[i])
 //@ func fetchTimeSeriesList
 //@   props C16 C08 C09 C10 C18
 //@   requires handleOK(db) && now != 0 && clockOK(db, now) && now - from <= 2147483647
@@ -32,8 +32,10 @@ package cmd
 //@   ensures kind: (archiveID >= -1 && archiveID < len(db.header.archiveInfoList) && from <= until) ==> result1 == nil || isio(result1)
 //@   ensures ok: result1 == nil ==> len(result0) == len(db.header.archiveInfoList) && fresh(result0)
 //@   ensures unselected: result1 == nil && archiveID >= 0 ==> forall i :: 0 <= i && i < len(result0) && i != archiveID ==> result0[i] == nil
+//@   ensures shaped: result1 == nil ==> allShaped(result0)
 //@ loop fetchTimeSeriesList#0
 //@   invariant bounds: 0 <= i && i <= len(db.header.archiveInfoList) && len(tsList) == len(db.header.archiveInfoList) && tsList.arr > old(top)
+//@   invariant shaped: forall k :: 0 <= k && k < len(tsList) ==> shaped(tsList[k])
 //@   invariant noiter: from > until ==> i == 0
 
 //@ func fetchRawPointsLists
@@ -155,13 +157,11 @@ package cmd
 //@   assume clockOK(db, now) at db
 //@   modifies ghost(nopen, 0), ghost(nlocked, 0)
 //@   ensures no_leak: ghost(nopen, 0) == old(ghost(nopen, 0)) && ghost(nlocked, 0) == old(ghost(nlocked, 0))
-//@   ensures ok: result2 == nil ==> listOK(result0, result1)
+//@   ensures ok: result2 == nil ==> listOK(result0, result1) && allShaped(result1)
 //@   ensures failed: result2 != nil ==> result0 == nil && len(result1) == 0
 //@   ensures unselected: result2 == nil && archiveID >= 0 ==> forall i :: 0 <= i && i < len(result1) && i != archiveID ==> result1[i] == nil
 
 //@ spec allNonNil(tl TimeSeriesList) bool = forall i :: 0 <= i && i < len(tl) ==> tl[i] != nil
-//@ spec shaped(ts *TimeSeries) bool = ts == nil || (ts.step > 0 && ts.fromTime <= ts.untilTime && len(ts.values) == (ts.untilTime - ts.fromTime) / ts.step)
-//@ spec allShaped(tl TimeSeriesList) bool = forall i :: 0 <= i && i < len(tl) ==> shaped(tl[i])
 
 //@ func getFileDataFromRemote
 //@   props C15 C12 C16
@@ -181,5 +181,188 @@ package cmd
 //@   requires now != 0 && now - from <= 2147483647
 //@   modifies ghost(nopen, 0), ghost(nlocked, 0)
 //@   ensures no_leak: ghost(nopen, 0) == old(ghost(nopen, 0)) && ghost(nlocked, 0) == old(ghost(nlocked, 0))
-//@   ensures ok: result2 == nil ==> listOK(result0, result1)
+//@   ensures ok: result2 == nil ==> listOK(result0, result1) && allShaped(result1)
 //@   ensures failed: result2 != nil ==> result0 == nil && len(result1) == 0
+
+// ---------------------------------------------------------------- diff (C09)
+
+//@ spec diffListsOK(n int, p PointsList, q PointsList) bool = len(p) >= n && len(q) >= n && (forall k :: 0 <= k && k < n ==> len(q[k]) >= len(p[k]))
+
+//@ func printDiff
+//@   props C09 C16
+//@   requires srcHeader != nil && diffListsOK(len(srcHeader.archiveInfoList), srcPlDif, destPlDif)
+//@   ensures ok: result == nil
+//@ loop printDiff#0
+//@   invariant bounds: 0 <= archiveID && archiveID <= len(srcHeader.archiveInfoList)
+//@ loop printDiff#1
+//@   invariant bounds: 0 <= i && i <= len(srcPtsDif)
+
+//@ func WrapFileNotExistError
+//@   props C09 C12 C16
+//@   ensures wrap: ispathne(err) ==> isfne(result) && fnesd(result) == srcOrDest
+//@   ensures keep: !ispathne(err) ==> result == err
+
+//@ func AsFileNotExistError
+//@   props C09 C12 C16
+//@   ensures found: isfne(err) ==> result != nil && result.srcOrDest == fnesd(err)
+//@   ensures none: !isfne(err) ==> result == nil
+
+//@ spec seriesEqual(a *TimeSeries, b *TimeSeries) bool = tsLen(a) == tsLen(b) && (a != nil && b != nil ==> forall j :: 0 <= j && j < len(a.values) ==> valueEqual(a.values[j], b.values[j]))
+//@ spec pairClean(a *TimeSeries, b *TimeSeries) bool = tsLen(a) == tsLen(b) && (a == nil || b == nil || tsDiffCnt(a, b, len(a.values)) == 0)
+//@ func (*DiffCommand).diffOneFile
+//@   props C09 C16
+//@   requires c != nil
+//@   assume now != 0 && now - c.From <= 2147483647 at until
+//@   modifies ghost(nopen, 0), ghost(nlocked, 0)
+//@   ensures no_leak: ghost(nopen, 0) == old(ghost(nopen, 0)) && ghost(nlocked, 0) == old(ghost(nlocked, 0))
+//@   check found: result0 == ErrDiffFound && srcHeader != nil && destHeader != nil
+//@                 ==> !(forall k :: 0 <= k && k < len(srcTsList) ==> pairClean(srcTsList[k], destTsList[k]))
+//@   check missing: (srcHeader == nil || destHeader == nil) ==> result0 != nil
+//@   check clean: result0 == nil ==> srcHeader != nil && destHeader != nil && sameLayout(srcHeader.archiveInfoList, destHeader.archiveInfoList)
+//@                 && len(srcTsList) == len(destTsList) && (forall k :: 0 <= k && k < len(srcTsList) ==> sameShape(srcTsList[k], destTsList[k]) && seriesEqual(srcTsList[k], destTsList[k]))
+
+// ---------------------------------------------------------------- server handlers (C12, C16)
+
+//@ func (*app).handleView
+//@   props C12 C16
+//@   requires a != nil && r != nil
+//@   assume now != 0 && now - from <= 2147483647 at filename
+//@   modifies ghost(nopen, 0), ghost(nlocked, 0)
+//@   ensures no_leak: ghost(nopen, 0) == old(ghost(nopen, 0)) && ghost(nlocked, 0) == old(ghost(nlocked, 0))
+//@ loop (*app).handleView#0
+//@   invariant bounds: 0 <= i && i <= len(h.archiveInfoList)
+//@   invariant buf: (len(buf) == 0 && buf.arr == 0) || buf.arr > old(top)
+
+//@ func getFormInt
+//@   props C12 C16
+//@   requires r != nil
+//@   ensures kind: result1 == nil || ishttp(result1)
+
+//@ func newHTTPError
+//@   props C12 C16
+//@   ensures obj: result != nil && fresh(result)
+
+//@ func setRespForNotExistErr
+//@   props C12 C16
+//@   ensures ok: result == nil
+
+// ---------------------------------------------------------------- view / view-raw (C16, C18)
+
+//@ func (PointsList).Print
+//@   props C16 C18
+//@   ensures any: true
+//@ loop (PointsList).Print#0
+//@   invariant bounds: 0 <= iter && iter <= len(pp)
+//@ loop (PointsList).Print#1
+//@   invariant bounds: 0 <= iter && iter <= len(points)
+
+//@ func printFileData
+//@   props C16 C18
+//@   requires showHeader ==> h != nil
+//@   ensures any: true
+
+//@ func (*ViewCommand).execute
+//@   props C16 C18
+//@   requires c != nil
+//@   assume now != 0 && now - c.From <= 2147483647 at until
+//@   modifies ghost(nopen, 0), ghost(nlocked, 0)
+//@   ensures no_leak: ghost(nopen, 0) == old(ghost(nopen, 0)) && ghost(nlocked, 0) == old(ghost(nlocked, 0))
+//@   check loud: result0 == nil ==> d != nil && tsList != nil
+
+//@ func filterPointsListByTimeRange
+//@   props C16 C18
+//@   requires h != nil && len(pointsList) >= len(h.archiveInfoList)
+//@   ensures shape: len(result) == len(pointsList) && fresh(result)
+//@ loop filterPointsListByTimeRange#0
+//@   invariant bounds: 0 <= i && i <= len(h.archiveInfoList) && len(pointsList2) == len(pointsList) && pointsList2.arr > old(top)
+
+//@ func sortPointsListByTime
+//@   props C16 C18
+//@   modifies rows(Point)
+//@   ensures any: true
+//@ loop sortPointsListByTime#0
+//@   invariant bounds: 0 <= iter && iter <= len(pointsList)
+
+//@ spec rawListOK(h *Header, pl PointsList) bool = h != nil && validHeader(*h) && len(pl) == len(h.archiveInfoList)
+
+//@ func readWhisperFileRawLocal
+//@   props C16 C18 C13
+//@   modifies ghost(nopen, 0), ghost(nlocked, 0)
+//@   ensures no_leak: ghost(nopen, 0) == old(ghost(nopen, 0)) && ghost(nlocked, 0) == old(ghost(nlocked, 0))
+//@   ensures ok: result2 == nil ==> rawListOK(result0, result1)
+//@   ensures failed: result2 != nil ==> result0 == nil && len(result1) == 0
+
+//@ func getRawFileDataFromRemote
+//@   props C15 C12 C16
+//@   ensures ok: result2 == nil ==> rawListOK(result0, result1) && fresh(result0)
+//@   ensures failed: result2 != nil ==> result0 == nil && len(result1) == 0
+//@ loop getRawFileDataFromRemote#0
+//@   invariant bounds: 0 <= i && i <= len(h.archiveInfoList) && len(ptsList) == len(h.archiveInfoList) && ptsList.arr > old(top) && validHeader(*h)
+
+//@ func readWhisperFileRawRemote
+//@   props C12 C16
+//@   ensures ok: result2 == nil ==> rawListOK(result0, result1)
+//@   ensures failed: result2 != nil ==> result0 == nil && len(result1) == 0
+
+//@ func readWhisperFileRaw
+//@   props C16 C18 C12
+//@   modifies ghost(nopen, 0), ghost(nlocked, 0)
+//@   ensures no_leak: ghost(nopen, 0) == old(ghost(nopen, 0)) && ghost(nlocked, 0) == old(ghost(nlocked, 0))
+//@   ensures ok: result2 == nil ==> rawListOK(result0, result1)
+//@   ensures failed: result2 != nil ==> result0 == nil && len(result1) == 0
+
+//@ func (*ViewRawCommand).execute
+//@   props C16 C18
+//@   requires c != nil
+//@   modifies ghost(nopen, 0), ghost(nlocked, 0), rows(Point)
+//@   ensures no_leak: ghost(nopen, 0) == old(ghost(nopen, 0)) && ghost(nlocked, 0) == old(ghost(nlocked, 0))
+//@   check loud: result0 == nil ==> h != nil
+
+//@ func (*DiffCommand).execute
+//@   props C09 C16
+//@   requires c != nil
+//@   modifies ghost(nopen, 0), ghost(nlocked, 0)
+//@   ensures no_leak: ghost(nopen, 0) == old(ghost(nopen, 0)) && ghost(nlocked, 0) == old(ghost(nlocked, 0))
+//@ loop (*DiffCommand).execute#0
+//@   invariant bounds: 0 <= iter && iter <= len(filenames)
+//@   invariant leak: ghost(nopen, 0) == old(ghost(nopen, 0)) && ghost(nlocked, 0) == old(ghost(nlocked, 0))
+
+// ---------------------------------------------------------------- globbing (C08..C12)
+
+//@ func globFilesLocal
+//@   props C09 C08 C12 C16
+//@   ensures none: result1 != nil ==> len(result0) == 0
+//@   ensures some: result1 == nil ==> len(result0) > 0 && fresh(result0)
+//@ loop globFilesLocal#0
+//@   invariant bounds: 0 <= iter && iter <= len(filenames) && len(filenames) > 0 && filenames.arr > old(top)
+
+//@ func globFilesRemote
+//@   props C09 C08 C12 C16
+//@   ensures none: result1 != nil ==> len(result0) == 0
+//@   ensures fresh: len(result0) == 0 || fresh(result0)
+//@ loop globFilesRemote#0
+//@   invariant fresh: (len(items) == 0 && items.arr == 0) || items.arr > old(top)
+
+//@ func globFiles
+//@   props C09 C08 C12 C16
+//@   ensures none: result1 != nil ==> len(result0) == 0
+//@   ensures fresh: len(result0) == 0 || fresh(result0)
+
+//@ func globItemsLocal
+//@   props C10 C11 C12 C16
+//@   ensures none: result1 != nil ==> len(result0) == 0
+//@   ensures some: result1 == nil ==> len(result0) > 0 && fresh(result0)
+//@ loop globItemsLocal#0
+//@   invariant bounds: 0 <= iter && iter <= len(items) && len(items) > 0 && items.arr > old(top)
+
+//@ func globItemsRemote
+//@   props C10 C11 C12 C16
+//@   ensures none: result1 != nil ==> len(result0) == 0
+//@   ensures fresh: len(result0) == 0 || fresh(result0)
+//@ loop globItemsRemote#0
+//@   invariant fresh: (len(items) == 0 && items.arr == 0) || items.arr > old(top)
+
+//@ func globItems
+//@   props C10 C11 C12 C16
+//@   ensures none: result1 != nil ==> len(result0) == 0
+//@   ensures fresh: len(result0) == 0 || fresh(result0)
